@@ -3,7 +3,7 @@
 # property against a scratch worktree of /repo HEAD with seeded/<id>/patch.diff applied; update meta.json
 # (verdict per check) and print one line per seed.  The worktree lives under /var/tmp and is removed.
 cd /verif
-WT=/var/tmp/seedwt
+WT=${SEEDWT:-/var/tmp/seedwt}
 git -C /repo worktree remove --force $WT 2>/dev/null
 git -C /repo worktree add -q --detach $WT HEAD || exit 3
 IDS="$@"; [ -z "$IDS" ] && IDS=$(ls seeded)
